@@ -376,7 +376,9 @@ def run_model(pid, imports, exprs, prelude="", shard_size=250, timeout=900):
             f.write(CASES_HEADER.format(imports=imports, prelude=prelude))
             for e in shards[idx]:
                 f.write("Eval vm_compute in (%s).\n" % e)
-        p = sh(["timeout", str(timeout), "coqc", "-noglob", "-Q", os.path.join(COQ, "theories"), "Grcov", vf], cwd=sc)
+        # deep (non tail-recursive) model functions on large inputs need more C stack than the default 8 MiB
+        p = sh(["sh", "-c", 'ulimit -s unlimited 2>/dev/null || ulimit -s $(ulimit -H -s) 2>/dev/null; exec timeout "$@"', "sh",
+                str(timeout), "coqc", "-noglob", "-Q", os.path.join(COQ, "theories"), "Grcov", vf], cwd=sc)
         vals = []
         if p.returncode != 0:
             return [("@@ERROR", (p.stdout + p.stderr)[-2000:])] * len(shards[idx])
